@@ -42,6 +42,8 @@ theorem noteExit_eq (s : Sys) (i : Wid) (cur : Pid) (x : Proc) :
   unfold Sys.noteExit; split <;> rfl
 @[simp] theorem noteExit_dropped (s : Sys) (i : Wid) (cur : Pid) (x : Proc) : (s.noteExit i cur x).dropped = s.dropped := by
   unfold Sys.noteExit; split <;> rfl
+@[simp] theorem noteExit_deadDropped (s : Sys) (i : Wid) (cur : Pid) (x : Proc) : (s.noteExit i cur x).deadDropped = s.deadDropped := by
+  unfold Sys.noteExit; split <;> rfl
 @[simp] theorem noteExit_spawned (s : Sys) (i : Wid) (cur : Pid) (x : Proc) : (s.noteExit i cur x).spawned = s.spawned := by
   unfold Sys.noteExit; split <;> rfl
 @[simp] theorem noteExit_spawnNotified (s : Sys) (i : Wid) (cur : Pid) (x : Proc) :
@@ -92,6 +94,7 @@ theorem noteExit_evtQ (s : Sys) (i : Wid) (cur : Pid) (x : Proc) :
 @[simp] theorem pushCmd_sent (s : Sys) (w c) : (s.pushCmd w c).sent = s.sent := rfl
 @[simp] theorem pushCmd_appended (s : Sys) (w c) : (s.pushCmd w c).appended = s.appended := rfl
 @[simp] theorem pushCmd_dropped (s : Sys) (w c) : (s.pushCmd w c).dropped = s.dropped := rfl
+@[simp] theorem pushCmd_deadDropped (s : Sys) (w c) : (s.pushCmd w c).deadDropped = s.deadDropped := rfl
 @[simp] theorem pushCmd_spawned (s : Sys) (w c) : (s.pushCmd w c).spawned = s.spawned := rfl
 @[simp] theorem pushCmd_spawnNotified (s : Sys) (w c) : (s.pushCmd w c).spawnNotified = s.spawnNotified := rfl
 @[simp] theorem pushCmd_reported (s : Sys) (w c) : (s.pushCmd w c).reported = s.reported := rfl
@@ -108,6 +111,7 @@ theorem noteExit_evtQ (s : Sys) (i : Wid) (cur : Pid) (x : Proc) :
 @[simp] theorem pushEvt_sent (s : Sys) (w e) : (s.pushEvt w e).sent = s.sent := rfl
 @[simp] theorem pushEvt_appended (s : Sys) (w e) : (s.pushEvt w e).appended = s.appended := rfl
 @[simp] theorem pushEvt_dropped (s : Sys) (w e) : (s.pushEvt w e).dropped = s.dropped := rfl
+@[simp] theorem pushEvt_deadDropped (s : Sys) (w e) : (s.pushEvt w e).deadDropped = s.deadDropped := rfl
 @[simp] theorem pushEvt_spawned (s : Sys) (w e) : (s.pushEvt w e).spawned = s.spawned := rfl
 @[simp] theorem pushEvt_spawnNotified (s : Sys) (w e) : (s.pushEvt w e).spawnNotified = s.spawnNotified := rfl
 @[simp] theorem pushEvt_reported (s : Sys) (w e) : (s.pushEvt w e).reported = s.reported := rfl
@@ -124,6 +128,7 @@ theorem noteExit_evtQ (s : Sys) (i : Wid) (cur : Pid) (x : Proc) :
 @[simp] theorem setWk_sent (s : Sys) (w x) : (s.setWk w x).sent = s.sent := rfl
 @[simp] theorem setWk_appended (s : Sys) (w x) : (s.setWk w x).appended = s.appended := rfl
 @[simp] theorem setWk_dropped (s : Sys) (w x) : (s.setWk w x).dropped = s.dropped := rfl
+@[simp] theorem setWk_deadDropped (s : Sys) (w x) : (s.setWk w x).deadDropped = s.deadDropped := rfl
 @[simp] theorem setWk_spawned (s : Sys) (w x) : (s.setWk w x).spawned = s.spawned := rfl
 @[simp] theorem setWk_spawnNotified (s : Sys) (w x) : (s.setWk w x).spawnNotified = s.spawnNotified := rfl
 @[simp] theorem setWk_reported (s : Sys) (w x) : (s.setWk w x).reported = s.reported := rfl
